@@ -76,6 +76,9 @@ type SeqCase struct {
 	Corrupt string   `json:"corruption"`
 	Frame   string   `json:"second_reply_hex"`
 	Cut     int      `json:"second_reply_cut,omitempty"`
+	// FirstBad: the first reply is itself damaged (its last byte flipped), so the first call FAILS; the second reply is
+	// then judged from the state a failed call leaves behind
+	FirstBad bool `json:"first_reply_damaged,omitempty"`
 }
 
 func evalSeq(c SeqCase, res *ev.Result, lc *local) {
@@ -93,6 +96,10 @@ func evalSeq(c SeqCase, res *ev.Result, lc *local) {
 	good1 := dev.Handle(d1).Frame(true)
 	var frame []byte
 	fmt.Sscanf(c.Frame, "%x", &frame)
+	if c.FirstBad {
+		good1 = append([]byte(nil), good1...)
+		good1[len(good1)-1] ^= 0x01
+	}
 	conn := &seqConn{serial: c.Kind != "rtu-net", replies: [][]byte{good1, frame}, cut: c.Cut}
 	vtime.ResetClock()
 	var do func(context.Context, packet.Request) (packet.Response, error)
@@ -112,7 +119,11 @@ func evalSeq(c SeqCase, res *ev.Result, lc *local) {
 	}
 	r1, e1 := lib.SafeDo(do, context.Background(), q1)
 	var ex1 *packet.ErrorResponseRTU
-	if !(e1 == nil && !lib.IsNil(r1)) && !errors.As(e1, &ex1) {
+	if c.FirstBad {
+		if e1 == nil {
+			return // (a damaged first reply that is accepted is reported by the main check)
+		}
+	} else if !(e1 == nil && !lib.IsNil(r1)) && !errors.As(e1, &ex1) {
 		return // the first exchange neither succeeded nor ended in the device's exception: C07's business (known findings live there)
 	}
 	r2, e2 := lib.SafeDo(do, context.Background(), q2)
@@ -175,6 +186,35 @@ func sequenceCheck(res *ev.Result, lc *local) {
 						f := append([]byte(nil), good2...)
 						f[i] = v
 						try("byte-substitution", f)
+					}
+				}
+			}
+		}
+	}
+	// second pass (kept apart from the first so that the order of the calls above - which is what exposes state that
+	// outlives a client - stays what it was): the next reply preceded / followed by stray bytes in the same read, after a
+	// call that FAILED (its reply was damaged) and after one that succeeded
+	for _, kind := range []string{"rtu-net", "serial", "serial-flusher"} {
+		for _, first := range reqs {
+			for _, second := range reqs {
+				q2, err := lib.NewRequest(second, true)
+				if err != nil {
+					panic(err)
+				}
+				d2, _ := spec.DecodeReq(q2.Bytes(), true)
+				dd := dev.Clone()
+				q1, _ := lib.NewRequest(first, true)
+				d1, _ := spec.DecodeReq(q1.Bytes(), true)
+				dd.Handle(d1)
+				good2 := dd.Handle(d2).Frame(true)
+				for _, junk := range [][]byte{{0x5A}, {0x00, 0x37}, {0xFF, 0x10, 0x22}} {
+					ext := append(append([]byte(nil), good2...), junk...)
+					pre := append(append([]byte(nil), junk...), good2...)
+					for _, f := range [][]byte{ext, pre} {
+						if badCRC(f) {
+							evalSeq(SeqCase{Kind: kind, Req: first, Second: second, Corrupt: "stray-bytes-after-failed-call", Frame: fmt.Sprintf("%x", f), FirstBad: true}, res, lc)
+							evalSeq(SeqCase{Kind: kind, Req: first, Second: second, Corrupt: "stray-bytes", Frame: fmt.Sprintf("%x", f)}, res, lc)
+						}
 					}
 				}
 			}
